@@ -316,6 +316,47 @@ func c01Eval(r *hx.Run, cs c01Case, dir string) {
 	}
 }
 
+// c01MergeDoc: rules written with YAML merge keys in every form (alias, inline mapping, list of aliases and mappings)
+// and at every place among the other keys, with or without a fault that Prometheus rejects before / after the merge.
+func c01MergeDoc(r *hx.Run) string {
+	rr := r.Rng
+	var sb strings.Builder
+	sb.WriteString("groups:\n- name: g\n  rules:\n  - &base\n    record: base:rule\n    expr: up\n  - &albase\n    alert: Base\n    expr: up == 0\n")
+	for i, n := 0, 1+rr.Intn(3); i < n; i++ {
+		alert := rr.Intn(2) == 0
+		merge := hx.Pick(rr, []string{"*base", "*albase", "{labels: {a: b}}", "{expr: up}", "[*base, {labels: {a: b}}]", "[{expr: up}, {labels: {x: y}}]", "[*albase]", "{}", "[]"})
+		var keys []string
+		if alert {
+			keys = append(keys, fmt.Sprintf("alert: A%d", i))
+		} else {
+			keys = append(keys, fmt.Sprintf("record: r%d:x", i))
+		}
+		if rr.Intn(3) != 0 {
+			keys = append(keys, "expr: "+hx.Pick(rr, []string{"up", "sum(up) by (job)", "up =="}))
+		}
+		keys = append(keys, "<<: "+merge)
+		switch rr.Intn(6) {
+		case 0:
+			keys = append(keys, "for: 5m") // invalid in a recording rule
+		case 1:
+			keys = append(keys, "bogus: 1")
+		case 2:
+			keys = append(keys, "keep_firing_for: 1m")
+		case 3:
+			keys = append(keys, "annotations: {summary: x}") // invalid in a recording rule
+		}
+		rr.Shuffle(len(keys), func(a, b int) { keys[a], keys[b] = keys[b], keys[a] })
+		for k, key := range keys {
+			if k == 0 {
+				sb.WriteString("  - " + key + "\n")
+			} else {
+				sb.WriteString("    " + key + "\n")
+			}
+		}
+	}
+	return sb.String()
+}
+
 func runC01(r *hx.Run, replay string) {
 	dir, err := os.MkdirTemp("", "c01-")
 	if err != nil {
@@ -340,6 +381,9 @@ func runC01(r *hx.Run, replay string) {
 		g := &c01Gen{rr: r.Rng}
 		content := g.doc()
 		c01Eval(r, c01Case{Content: content, Traits: g.traits}, dir)
+		if i%8 == 0 {
+			c01Eval(r, c01Case{Content: c01MergeDoc(r), Traits: []string{"merge"}}, dir)
+		}
 		if r.Rng.Intn(4) == 0 {
 			// byte / line level mutation of the same document
 			m := c02Mutate(r, content)
